@@ -39,10 +39,10 @@ static int sentinel_cb(void *) {
   sentinel_fired = 1;
   return 0;
 }
-static void settle(const char *what) {
+static void settle(const char *what, int64_t us = 30000) {
   if (X->failed) return;
   sentinel_fired = 0;
-  void *t = shim_timer_register(sentinel_cb, nullptr, 0, 30000);
+  void *t = shim_timer_register(sentinel_cb, nullptr, (long)(us / 1000000), (long)(us % 1000000));
   if (!t) return;
   int rc = run_loop_until([&] { return sentinel_fired != 0; }, 200);
   if (!sentinel_fired) shim_timer_cancel(t);
@@ -55,8 +55,8 @@ static InItem mk_in(const Op &op) {
   auto A = [&](size_t i) -> int64_t { return i < op.a.size() ? op.a[i] : 0; };
   it.t = (int)(((A(0) % 5) + 5) % 5);
   it.delay = std::min<int64_t>(std::max<int64_t>(A(1), 0), 10000000);
-  static const int errs[] = {ECONNRESET, EPIPE, ETIMEDOUT, EIO, ENOTCONN};
-  it.err = it.t == IN_SPUR ? (A(2) & 1 ? EWOULDBLOCK : EAGAIN) : errs[((A(2) % 5) + 5) % 5];
+  static const int errs[] = {ECONNRESET, EPIPE, ETIMEDOUT, EIO, ENOTCONN, ENOMEM, ENOBUFS, ECONNREFUSED, EHOSTUNREACH};
+  it.err = it.t == IN_SPUR ? (A(2) & 1 ? EWOULDBLOCK : EAGAIN) : errs[((A(2) % 9) + 9) % 9];
   it.hup = A(3) & 1;
   if (it.t == IN_DATA) it.data = op.b.empty() ? prbytes((uint64_t)A(4), (size_t)std::min<int64_t>(std::max<int64_t>(A(5), 1), 400000)) : op.b;
   return it;
@@ -68,8 +68,8 @@ static OutItem mk_out(const Op &op) {
   it.t = (int)(((A(0) % 5) + 5) % 5);
   it.n = (size_t)std::min<int64_t>(std::max<int64_t>(A(1), 1), 1 << 20);
   it.delay = std::min<int64_t>(std::max<int64_t>(A(2), 0), 10000000);
-  static const int errs[] = {EPIPE, ECONNRESET, ETIMEDOUT, EIO, ENOTCONN};
-  it.err = it.t == OUT_EAGAIN ? (A(3) & 1 ? EWOULDBLOCK : EAGAIN) : errs[((A(3) % 5) + 5) % 5];
+  static const int errs[] = {EPIPE, ECONNRESET, ETIMEDOUT, EIO, ENOTCONN, ENOBUFS, ENOMEM, EACCES, EHOSTUNREACH, ENETDOWN};
+  it.err = it.t == OUT_EAGAIN ? (A(3) & 1 ? EWOULDBLOCK : EAGAIN) : errs[((A(3) % 10) + 10) % 10];
   return it;
 }
 
@@ -104,6 +104,10 @@ static int rw_cb(void *c, ssize_t n);
 static int cancel_cb(void *c);
 
 static void check_quiet_after_cancel(Req *r);
+static int rw_cb_unexpected(void *, ssize_t) {
+  X->fail("callback-of-refused-request", "the callback of a request that was refused (or withdrawn at once) was invoked");
+  return 0;
+}
 static void issue(Req *r) {
   Sock *s = K().get(G->fd);
   // earlier cancelled requests: nothing may have touched the descriptor since their cancel
@@ -126,6 +130,19 @@ static void issue(Req *r) {
   if (!r->cookie) {
     X->fail("request-refused", "network_read/write returned NULL although the descriptor was free (previous request completed or cancelled)");
     return;
+  }
+  // one request in five is followed at once by a second request for the same direction: it is refused (the descriptor is
+  // busy), and refusing it must not disturb the first one
+  if ((r->seed & 7) == 5) {
+    uint8_t *b2 = (uint8_t *)malloc(8);
+    memset(b2, 0x5a, 8);
+    errno = 0;
+    void *c2 = r->is_write ? shim_network_write(G->fd, b2, 8, 8, rw_cb_unexpected, nullptr) : shim_network_read(G->fd, b2, 8, 1, rw_cb_unexpected, nullptr);
+    if (c2) {  // accepted after all: withdraw it at once, no verdict
+      if (r->is_write) shim_network_write_cancel(c2); else shim_network_read_cancel(c2);
+    } else
+      X->cls.insert("second-request-on-busy-descriptor-refused");
+    free(b2);
   }
   if (r->cancel_at == 0) {
     cancel_cb(r);
@@ -375,24 +392,24 @@ static rc::Gen<Case> gen_rw(int mode, int tier) {
         int t = *rc::gen::weightedElement<int>({{8, IN_DATA}, {3, IN_SPUR}, {2, IN_EINTR}});
         int64_t delay = *rc::gen::weightedOneOf<int64_t>({{3, rc::gen::just<int64_t>(0)}, {2, rc::gen::elementOf(std::vector<int64_t>{1, 999, 1000, 1001, 2000, 50000})}});
         int64_t len = *rc::gen::weightedOneOf<int64_t>({{4, range<int64_t>(1, 20)}, {2, range<int64_t>(1, 3000)}, {1, range<int64_t>(1, std::max<int64_t>(1, total))}});
-        c.push_back(Op("in", {t, delay, *range<int>(0, 4), 0, *rc::gen::arbitrary<int>(), len}));
+        c.push_back(Op("in", {t, delay, *range<int>(0, 8), 0, *rc::gen::arbitrary<int>(), len}));
         if (t == IN_DATA) produced += len;
       } else {
         int t = *rc::gen::weightedElement<int>({{8, OUT_ACCEPT}, {3, OUT_EAGAIN}, {2, OUT_EINTR}, {2, OUT_BLOCK}});
         int64_t n = *rc::gen::weightedOneOf<int64_t>({{4, range<int64_t>(1, 20)}, {2, range<int64_t>(1, 3000)}, {1, range<int64_t>(1, std::max<int64_t>(1, total))}});
         int64_t delay = *rc::gen::elementOf(std::vector<int64_t>{0, 1, 999, 1000, 1001, 2000, 50000});
-        c.push_back(Op("out", {t, n, delay, *range<int>(0, 4)}));
+        c.push_back(Op("out", {t, n, delay, *range<int>(0, 9)}));
       }
     }
     // ending: EOF / hard error / silence (reads); hard error / accept-everything (writes)
     int end = *rc::gen::weightedElement<int>({{4, 0}, {3, 1}, {2, 2}, {3, 3}});
-    if (mode == 2 && *range<int>(0, 3) == 0) c.push_back(Op("out", {OUT_ERR, 1, 0, *range<int>(0, 4)}));
+    if (mode == 2 && *range<int>(0, 3) == 0) c.push_back(Op("out", {OUT_ERR, 1, 0, *range<int>(0, 9)}));
     if (mode != 1) {
       if (end == 3 && produced < total) c.push_back(Op("in", {IN_DATA, *range<int>(0, 1) * 1000, 0, 0, *rc::gen::arbitrary<int>(), total - produced + *range<int>(0, 10)}));
       if (end == 0 || end == 3) c.push_back(Op("in", {IN_EOF, *rc::gen::elementOf(std::vector<int64_t>{0, 0, 1000, 2500}), 0, *range<int>(0, 1), 0, 0}));
-      if (end == 1) c.push_back(Op("in", {IN_ERR, *rc::gen::elementOf(std::vector<int64_t>{0, 0, 1000, 2500}), *range<int>(0, 4), *range<int>(0, 1), 0, 0}));
+      if (end == 1) c.push_back(Op("in", {IN_ERR, *rc::gen::elementOf(std::vector<int64_t>{0, 0, 1000, 2500}), *range<int>(0, 8), *range<int>(0, 1), 0, 0}));
     } else {
-      if (end == 1) c.push_back(Op("out", {OUT_ERR, 1, 0, *range<int>(0, 4)}));
+      if (end == 1) c.push_back(Op("out", {OUT_ERR, 1, 0, *range<int>(0, 9)}));
     }
     if (*range<int>(0, 5) == 0) c.push_back(Op("eintr"));
     if (*range<int>(0, 3) == 0) c.push_back(Op("fd", {*rc::gen::elementOf(std::vector<int64_t>{0, 0, 1, 2, 3, 7, 39, 255, 256, 1023, 1024, 5000})}));
@@ -640,7 +657,7 @@ static Outcome run_connect(const Case &c) {
       x.fail("livelock", "connect did not finish within 20000 loop turns");
     else if (rc != 0)
       x.fail("events-run-error", "events_run returned " + std::to_string(rc));
-    settle("connect request");
+    settle("connect request", mode == 1 ? timeo + 30000 : 30000);  // long enough for a per-address timer left behind to fire
   }
   if (!x.failed) {
     char m[400];
